@@ -66,6 +66,9 @@ Live == ~dead /\ NoLinger /\ UNCHANGED <<dead, segno>>
 TReset == /\ IsEv("reset") /\ Fresh /\ dead' = FALSE
           /\ segno' = (segno + 1) % 8 /\ TLCSet(10 + ((segno + 1) % 8), 0)
 
+\* the source held the blob before the handler was attached: no hook ran, nothing is queued for it
+TPre    == IsEv("pre") /\ Live /\ Ev.b \in Blobs /\ ~up /\ src' = src \cup {Ev.b}
+           /\ UNCHANGED <<dst, queue, needCopy, ust, cst, acked, up, loaded, faulty, crashes>> /\ Mark
 TStart  == IsEv("start") /\ Live /\ Start /\ Mark
 TFind   == IsEv("find") /\ Live /\ Reload /\ Mark
 TUp     == IsEv("up") /\ Live /\ Ev.b \in Blobs /\ SourceAccept(Ev.b) /\ Mark
@@ -100,7 +103,7 @@ TSilent == /\ ~dead /\ l <= Len(Trace)
 TGiveUp == ~dead /\ l <= Len(Trace) /\ Ev.ev # "reset" /\ l' = l + 1 /\ dead' = TRUE /\ Fresh /\ UNCHANGED segno
 TSkip == dead /\ l <= Len(Trace) /\ Ev.ev # "reset" /\ l' = l + 1 /\ UNCHANGED <<vars, dead, segno>>
 
-TNext == TReset \/ TStart \/ TFind \/ TUp \/ TSet \/ TFetch \/ TRecv \/ TDel \/ TCrash \/ THeal \/ TAck \/ TFinal
+TNext == TReset \/ TPre \/ TStart \/ TFind \/ TUp \/ TSet \/ TFetch \/ TRecv \/ TDel \/ TCrash \/ THeal \/ TAck \/ TFinal
          \/ TSilent \/ TGiveUp \/ TSkip
 TSpec == TInit /\ [][TNext]_tvars
 Consumed == TLCGet("stats").diameter >= Len(Trace)
